@@ -37,20 +37,27 @@ Up == Build(Variant, 1, Gene(a))
 Down == Build(Variant, 2, Gene(b))
 Merge(same) == Combine(Variant, Up, Down, same)
 
-(* the model's modules for one gene satisfy partition, layout, flags, border reasons *)
-SingleOK == phase = 0 => BuildClauses(Gene(a), Result("", Up), ModelReload(Up)) = {}
-(* every model module is accepted again, component by component, from its own components *)
-ReloadSat == phase = 0 => \A j \in DOMAIN Up : AcceptOwn(Variant, Up[j].comps)
-(* the model's merge satisfies the merge relation on either strand combination *)
-PairOK == phase = 1 => \A same \in BOOLEAN :
-            LET o == Merge(same)
-            IN  CombineClauses(Gene(a), Gene(b), same, Up, Down, Result("", o),
-                               IF o.merged THEN ModelReload(<<o.m>>) ELSE <<>>) = {}
-MergedReloadSat == phase = 1 => (Merge(TRUE).merged => AcceptOwn(Variant, Merge(TRUE).m.comps))
-(* the bands are not empty *)
-BandsOrdered == phase = 0 => \A j \in DOMAIN Up : \A first \in BOOLEAN :
-                  /\ CompleteMust(Up[j].comps, first) => CompleteMay(Up[j].comps, first)
-                  /\ TransATMust(Up[j].comps) => TransATMay(Up[j].comps)
+(* (LET-bound values are computed once per state by TLC; top-level definitions would be re-evaluated) *)
+(* the model's modules for one gene satisfy partition, layout, flags, border reasons; every model
+   module is accepted again, component by component, from its own components; the bands are not empty *)
+SingleOK == phase = 0 =>
+    LET up == Up IN BuildClauses(Gene(a), Result("", up), ModelReload(up)) = {}
+ReloadSat == phase = 0 => LET up == Up IN \A j \in DOMAIN up : AcceptOwn(Variant, up[j].comps)
+BandsOrdered == phase = 0 => LET up == Up IN \A j \in DOMAIN up : \A first \in BOOLEAN :
+                  /\ CompleteMust(up[j].comps, first) => CompleteMay(up[j].comps, first)
+                  /\ TransATMust(up[j].comps) => TransATMay(up[j].comps)
+(* the model's merge satisfies the merge relation on either strand combination, and the merged module
+   is accepted again from its own components *)
+PairOK == phase = 1 =>
+    LET up == Up
+        down == Down
+        ga == Gene(a)
+        gb == Gene(b)
+    IN  \A same \in BOOLEAN :
+            LET o == Combine(Variant, up, down, same)
+            IN  /\ CombineClauses(ga, gb, same, up, down, Result("", o),
+                                  IF o.merged THEN ModelReload(<<o.m>>) ELSE <<>>) = {}
+                /\ o.merged => AcceptOwn(Variant, o.m.comps)
 (* expected to be VIOLATED: show that the model does merge / does absorb a trailing KR *)
 NeverMerges == phase = 1 => ~Merge(TRUE).merged
 NeverAbsorbs == phase = 1 => (Merge(TRUE).merged => Len(Merge(TRUE).qb) >= Len(Down) - 1)
